@@ -390,7 +390,10 @@ fn generate(
     let Some(app) = app else {
         return Ok(ExitCode::FAILURE);
     };
-    if let Some(diagnostic_path) = diagnostics {
+    // `--check` must never modify files on disk.
+    if let Some(diagnostic_path) = diagnostics
+        && !check
+    {
         app.diagnostic_representation()
             .persist_flat(&diagnostic_path)
             .context("Failed to persist diagnostic information to disk")?;
